@@ -693,7 +693,7 @@ impl<E: Eviction> CacheT<E> {
         &&& (!before.pipe.enabled ==> self.pipe.sent@ == before.pipe.sent@)
     }
 
-//@region foyer-memory/src/raw.rs :: impl~^impl<E, S, I> RawCache<E, S, I> where/fn insert_inner name=insert_inner_dispatch start=/let piped = self\.pipe\.is_enabled/ stmts=2 rules=for-tuple-pattern
+//@region foyer-memory/src/raw.rs :: impl~^impl<E, S, I> RawCache<E, S, I> where/fn insert_inner name=insert_inner_dispatch start=/let piped = / stmts=2 rules=for-tuple-pattern
 //@head
     fn insert_inner_dispatch(&mut self, garbages: Vec<(Event, Arc<Record<E>>)>)
         ensures final(self).dispatched(old(self), garbages@), // @label each_garbage_notified_once_and_only_evictions_piped
@@ -718,7 +718,7 @@ impl<E: Eviction> CacheT<E> {
         }
 //@end
 
-//@region foyer-memory/src/raw.rs :: impl~^impl<E, S, I> RawCache<E, S, I> where/fn evict_all name=evict_all_dispatch start=/let piped = self\.pipe\.is_enabled/ stmts=2 rules=for-tuple-pattern
+//@region foyer-memory/src/raw.rs :: impl~^impl<E, S, I> RawCache<E, S, I> where/fn evict_all name=evict_all_dispatch start=/let piped = / stmts=2 rules=for-tuple-pattern
 //@head
     fn evict_all_dispatch(&mut self, garbages: Vec<(Event, Arc<Record<E>>)>)
         ensures final(self).dispatched(old(self), garbages@), // @label each_garbage_notified_once_and_only_evictions_piped
@@ -745,7 +745,7 @@ impl<E: Eviction> CacheT<E> {
 // when the pipe is enabled. One region from `let piped = ..` to the end of the function.
 // the iterator-adapter line `garbages.into_iter().map(|(_, record)| Piece::new(record)).collect_vec()` is outside
 // Verus; it is replaced by the prelude function `pieces_of` (assumed: one piece per garbage record, in order)
-//@region foyer-memory/src/raw.rs :: impl~^impl<E, S, I> RawCache<E, S, I> where/fn flush name=flush_dispatch start=/let piped = self\.pipe\.is_enabled\(\);/ stmts=99 rules=for-tuple-pattern,de-async subopt=@garbages\.into_iter\(\)\.map\(\|\(_, record\)\| Piece::new\(record\)\)\.collect_vec\(\)@pieces_of(garbages)@
+//@region foyer-memory/src/raw.rs :: impl~^impl<E, S, I> RawCache<E, S, I> where/fn flush name=flush_dispatch start=/let piped = / stmts=99 rules=for-tuple-pattern,de-async subopt=@garbages\.into_iter\(\)\.map\(\|\(_, record\)\| Piece::new\(record\)\)\.collect_vec\(\)@pieces_of(garbages)@
 //@head
     fn flush_dispatch(&mut self, garbages: Vec<(Event, Arc<Record<E>>)>)
         ensures
@@ -784,7 +784,7 @@ fn resize_shard<E: Eviction, S, I: Indexer<Eviction = E>>(shard: &mut RawCacheSh
         forall|i: int| old(garbages)@.len() <= i < final(garbages)@.len() ==> (#[trigger] final(garbages)@[i]).0 == Event::Evict, // @label resize_victims_are_evictions
 //@end
 
-//@region foyer-memory/src/raw.rs :: impl~^impl<E, S, I> RawCache<E, S, I> where/fn resize name=resize_dispatch start=/let piped = pipe\.is_enabled/ stmts=2 rules=for-tuple-pattern
+//@region foyer-memory/src/raw.rs :: impl~^impl<E, S, I> RawCache<E, S, I> where/fn resize name=resize_dispatch start=/let piped = / stmts=2 rules=for-tuple-pattern
 //@head
 fn resize_dispatch<E: Eviction>(inner: &mut InnerT<E>, pipe: &mut PipeT<E>, garbages: Vec<(Event, Arc<Record<E>>)>)
     ensures
@@ -1020,7 +1020,7 @@ impl HashBuilderT { #[verifier::external_body] pub fn hash_one(&self, k: &u64) -
 pub struct PlacementInnerT { pub hash_builder: HashBuilderT, pub weighter: WeighterT, pub filter: FilterT }
 pub struct PlacementT { pub inner: PlacementInnerT }
 impl PlacementT {
-//@region foyer-memory/src/raw.rs :: impl~^impl<E, S, I> RawCache<E, S, I> where/fn insert_with_properties_inner name=placement start=/let hash = self\.inner\.hash_builder\.hash_one/ stmts=4 rules=let-chain sub=@\(self\.inner\.weighter\)\(@self.inner.weighter.call(@ sub=@\(self\.inner\.filter\)\(@self.inner.filter.call(@
+//@region foyer-memory/src/raw.rs :: impl~^impl<E, S, I> RawCache<E, S, I> where/fn insert_with_properties_inner name=placement start=/let hash = / stmts=4 rules=let-chain sub=@\(self\.inner\.weighter\)\(@self.inner.weighter.call(@ sub=@\(self\.inner\.filter\)\(@self.inner.filter.call(@
 //@head
     fn placement<P: PropsW>(&self, key: u64, value: u64, mut properties: P) -> (r: P)
         ensures
@@ -1054,7 +1054,7 @@ pub open spec fn all_evicted<E: Eviction>(shards: Seq<ShardLockT>, n: int) -> Se
 pub struct ShardsInnerT { pub shards: Vec<ShardLockT> }
 pub struct ShardsOwnerT { pub inner: ShardsInnerT }
 impl ShardsOwnerT {
-//@region foyer-memory/src/raw.rs :: impl~^impl<E, S, I> RawCache<E, S, I> where/fn flush name=flush_evicts_every_shard start=/let mut garbages = vec!\[\];/ stmts=2
+//@region foyer-memory/src/raw.rs :: impl~^impl<E, S, I> RawCache<E, S, I> where/fn flush name=flush_evicts_every_shard start=/let mut garbages = / stmts=2
 //@head
     fn flush_evicts_every_shard<E: Eviction>(&self) -> (r: Vec<(Event, Arc<Record<E>>)>)
         ensures r@ == all_evicted::<E>(self.inner.shards@, self.inner.shards@.len() as int), // @label flush_evicts_every_shard_down_to_zero
@@ -1063,7 +1063,7 @@ impl ShardsOwnerT {
 //@tail
         garbages
 //@end
-//@region foyer-memory/src/raw.rs :: impl~^impl<E, S, I> RawCache<E, S, I> where/fn evict_all name=evict_all_evicts_every_shard start=/let mut garbages = vec!\[\];/ stmts=2
+//@region foyer-memory/src/raw.rs :: impl~^impl<E, S, I> RawCache<E, S, I> where/fn evict_all name=evict_all_evicts_every_shard start=/let mut garbages = / stmts=2
 //@head
     fn evict_all_evicts_every_shard<E: Eviction>(&self) -> (r: Vec<(Event, Arc<Record<E>>)>)
         ensures r@ == all_evicted::<E>(self.inner.shards@, self.inner.shards@.len() as int), // @label evict_all_evicts_every_shard_down_to_zero
